@@ -1,5 +1,6 @@
 #!/bin/sh
 # usage: tools/soak.sh <first-seed> <last-seed> [props...]  — runs the quick checks over a seed range (no rebuild), prints failures
+export VERIF_EVIDENCE_DIR=/verif/work/evidence-scratch   # keep the committed evidence (unchanged tree, seed 1) intact
 first=$1; last=$2; shift 2
 props="${@:-C01 C02 C03 C04 C05 C06 C07 C08 C09 C10 C11 C12 C13 C14 C15 C16 C17 C18 C19 C20}"
 cd /verif
